@@ -92,7 +92,13 @@ let run () =
               | _ -> ())
            end;
            if is8 then begin incr bad8; if !bad8 <= 15 then Printf.printf "JUDGE-FAIL C08 %s len=%d record=%d spec=%s\n" line len reclen
+                   (match sp with SpecError e -> gerr_class e | SpecFields fs -> "ok:" ^ show_fields fs);
+             (* C07 speaks of every input at least as long as the record: refusing such an input
+                (or panicking on it) also withholds the fields C07 demands *)
+             if len >= reclen && (res = "Einputtooshort" || res = "P") then begin
+               incr bad7; if !bad7 <= 15 then Printf.printf "JUDGE-FAIL C07 %s spec=%s\n" line
                    (match sp with SpecError e -> gerr_class e | SpecFields fs -> "ok:" ^ show_fields fs) end
+           end
            else begin incr bad7; if !bad7 <= 15 then Printf.printf "JUDGE-FAIL C07 %s spec=%s\n" line
                    (match sp with SpecError e -> gerr_class e | SpecFields fs -> "ok:" ^ show_fields fs) end
          end
